@@ -34,7 +34,12 @@ TFlush == /\ Is("flush") /\ Step
           /\ Flush
           /\ err' = Cur.err /\ Cur.outn = 0
 
-TNext == TPiece \/ TFlush
+\* the call as a whole ended as the model says (a normal return only after the flush)
+TEnd == /\ Is("end") /\ Step
+        /\ Ended /\ Cur.err = err
+        /\ UNCHANGED vars
+
+TNext == TPiece \/ TFlush \/ TEnd
 TSpec == TInit /\ [][TNext]_tvars
 
 ASSUME \A i \in 1..(2 * NT) : TLCSet(i, 0)
